@@ -183,6 +183,7 @@ def C05(ctx):
     wps.rule_best_path_py(ctx, m)
     wps.rule_best_path_c(ctx, m, tier=ctx.tier)
     wps.rule_best_path_moves(ctx, m)
+    wps.rule_best_path_prob_moves(ctx, m)
     with ctx.scoped(has('dtw_wps_loc')):
         wps.rule_wps_readers(ctx, m)
     with ctx.scoped(has('warping_path', 'best_path')):
@@ -309,6 +310,8 @@ def C12(ctx):
         sig.rule_py_to_pyx(ctx, m, ['dtaidistance.dtw_barycenter'])
         cshape.rule_c_no_input_stores(ctx, m)
     fwd.rule_delegation(ctx, m, ['dtaidistance.dtw_barycenter'])
+    from .rules import wps
+    wps.rule_best_path_prob_moves(ctx, m)      # the sampled alignment used by DBA with nb_prob_samples
     ctx.floor('R-PATH', 12, 'C + Python DBA path rules')
 
 
